@@ -13,7 +13,7 @@ IO == {"inner", "outer"}
 Chunked(r, dim) == \E k \in DOMAIN r.chunks : r.chunks[k][1] = dim /\ Len(r.chunks[k][2]) > 1
 \* some operated axis is chunked along its dimension while its shift involves inner or outer
 MustRefuse(r) ==
-  /\ r.kind \in {"op", "weighted"} /\ r.op # "cumsum"
+  /\ r.kind \in {"op", "weighted", "vecplain"} /\ r.op # "cumsum"
   /\ LET st == StepsFrom(r, r.args.data.dims, 1, <<>>)[1] IN
      \E k \in DOMAIN st : Chunked(r, r.args.data.dims[st[k].d]) /\ (st[k].from \in IO \/ st[k].to \in IO)
 
@@ -28,7 +28,7 @@ VDask(r) ==
   ELSE IF r.out.dims # r.eager.dims \/ r.out.shape # r.eager.shape THEN "dims-differ-from-eager"
   ELSE IF r.out.flat # r.eager.flat THEN "values-differ-from-eager"
   ELSE IF r.out.coords # r.eager.coords THEN "coords-differ-from-eager"
-  ELSE IF r.kind = "op" /\ (LET e == Expected(r) IN r.out.dims # e.dims \/ r.out.flat # e.arr.flat) THEN "values-differ-from-geometry"
+  ELSE IF r.kind \in {"op", "vecplain"} /\ (LET e == Expected(r) IN r.out.dims # e.dims \/ r.out.flat # e.arr.flat) THEN "values-differ-from-geometry"
   ELSE "ok"
 
 Verdict(r) == IF r.ev = "Dask" THEN VDask(r) ELSE "unknown-event"
